@@ -86,3 +86,16 @@ pub fn catch<T>(f: impl FnOnce() -> T) -> Result<T, String> {
 pub fn quiet_panics() {
     std::panic::set_hook(Box::new(|_| {}));
 }
+
+/// runs one case under a deadline of its own: a case that never returns (a registration, a
+/// connection or a library call without a deadline hung) is reported instead of stalling the run
+#[macro_export]
+macro_rules! guard_case {
+    ($out:ident, $secs:expr, $call:expr) => {
+        if tokio::time::timeout(std::time::Duration::from_secs($secs), $call).await.is_err() {
+            use std::fmt::Write as _;
+            let _ = writeln!($out, "harness_error hung: the case did not complete within {} s (a call without a deadline of its own never returned)", $secs);
+            let _ = writeln!($out, "end");
+        }
+    };
+}
